@@ -43,7 +43,8 @@ AllDecls ==
 
 Init == /\ epending \in [EApps -> 0..2]
         /\ gapplied \in [GApps -> 0..GLen]
-        /\ decls \in { D \in SUBSET AllDecls : Cardinality(D) <= MaxDecl }
+        /\ decls \in {{}} \cup { {d} : d \in AllDecls }
+                       \cup (IF MaxDecl >= 2 THEN { {d, e} : d \in AllDecls, e \in AllDecls } ELSE {})
         \* a declaration sits in an evolution that is pending
         /\ \A d \in decls : d[1] \in {"eam", "ebm"} => <<"evo", d[2], d[3]>> \in PendingEvos(d[2])
         /\ \A d \in decls : d[1] \in {"aam", "abm"} => epending[d[2]] > 0
@@ -72,13 +73,11 @@ DeclReq(d) ==
        ELSE { <<mig, e>> : e \in PendingEvos(d[2]) }
 Req == ChainReq \cup UNION { DeclReq(d) : d \in decls }
 
-(* transitive closure by repeated squaring over the (small) unit set *)
-RECURSIVE Close(_, _)
-Close(R, n) == IF n = 0 THEN R
-               ELSE Close(R \cup { <<a, c>> \in Units \X Units :
-                                      \E b \in Units : <<a, b>> \in R /\ <<b, c>> \in R }, n - 1)
-Closure == Close(Req, 3)
-Unsatisfiable == \E u \in Units : <<u, u>> \in Closure
+(* the requirements cannot all be met iff some unit (transitively) has to come after itself *)
+Succ(R, S) == { p[2] : p \in { q \in R : q[1] \in S } }
+RECURSIVE Reach(_, _, _)
+Reach(R, S, k) == IF k = 0 \/ S = {} THEN {} ELSE LET T == Succ(R, S) IN T \cup Reach(R, T, k - 1)
+Unsatisfiable == LET R == Req IN \E u \in Units : u \in Reach(R, {u}, Cardinality(Units))
 
 RECURSIVE SetToSeq(_)
 SetToSeq(X) == IF X = {} THEN <<>> ELSE LET x == CHOOSE y \in X : TRUE IN <<x>> \o SetToSeq(X \ {x})
